@@ -179,7 +179,14 @@ def check_case(case, ctx):
         ctx.check(not np.any(np.isnan(fit[seg])), "segment-has-nan", desc, "fit column is NaN inside the fitted segment")
         want = expected_fit(cfg["model_key"], pf, x[seg] * k, k)
         err = np.max(np.abs(fit[seg] - want))
-        ctx.check(err <= 1e-9 * frange, "fit-column-vs-parameters", desc,
+        # models with a half angle: tan(alpha) amplifies the one-ulp difference between alpha*pi/180 and
+        # radians(alpha) by x / (sin x cos x), which is unbounded towards the bound alpha = 90 (a varied angle can end there)
+        slack = 0.0
+        if "alpha" in pf:
+            xa = np.radians(pf["alpha"].value)
+            cond = 1.0 + abs(xa) / max(abs(np.sin(xa) * np.cos(xa)), 1e-300)
+            slack = 8 * np.finfo(float).eps * cond * float(np.max(np.abs(want)))
+        ctx.check(err <= 1e-9 * frange + slack, "fit-column-vs-parameters", desc,
                   f"max |fit - model(params_fitted)| = {err:.3e}, force range {frange:.3e}, k={k}")
         # residual column
         wres = (y[seg] - fit[seg]) * w[seg]
